@@ -264,8 +264,10 @@ CHECKS = {
         'names is fully compatible with itself (C09_reflexive, induction on fuel through unions, records, enums, references); '
         'mutual_read is symmetric (C09_mutual_symmetric); on primitive types the verdict is Full exactly for identical types and '
         'the specification\'s promotions (C09_primitive_table); the always-safe reader steps keep the verdict - field added '
-        'with a default, field removed, union branch added (C09_reader_*). The soundness direction (Full => every value of W '
-        'reads with R) is FALSE of the code in five classes; each has a vm_compute witness on the faithful model '
+        'with a default, field removed, union branch added (C09_reader_*). Soundness (Full => every value W accepts reads '
+        'with R) is PROVED on a fragment at every depth and size (C09_full_sound_fragment: primitives without bytes->string, '
+        'arrays, maps, fixed, enums, records without reader aliases whose reader fields all exist in the writer) and is FALSE '
+        'of the code outside it in five classes; each has a vm_compute witness on the faithful model '
         '(C09_*_refuted), is replayed on the implementation every run and is listed in known_findings.json. Check: the C08 '
         'evolution triples plus all 1600 ordered pairs of a 40-schema enumeration x values of W: Full => the read succeeds; '
         'safe steps never incompatible; can_read(W, W) Full; mutual_read symmetric; model verdicts = implementation verdicts.',
